@@ -354,11 +354,11 @@ def oddChar (T : Tables) (c : Char) : Bool :=
 /-- `CMD w` parses as a Python statement (assignment / annotation), so it never reaches subprocess mode -/
 def pyStmt (w : Str) : Bool :=
   match w with
-  | '=' :: d :: _ => d != '='
-  | ['='] => true
-  | ':' :: _ => true
-  | c :: '=' :: _ => c == '+' || c == '-' || c == '%' || c == '^' || c == '@'
-  | _ => false
+  | [] => false
+  | c :: r =>
+    if c == '=' then r.head? != some '='
+    else if c == ':' then true
+    else (c == '+' || c == '-' || c == '%' || c == '^' || c == '@') && r.head? == some '='
 
 def strip (s : Str) : Str := rstripSpaces (s.dropWhile (· == ' '))
 
@@ -414,7 +414,7 @@ the name; each is a known finding.  `[]` = the round-trip theorem applies. -/
 inductive Cls
   | trailingSpace | lineSeparator | bangUnquoted | oddToken | pythonStatement | tildeExpansion
   | dollarExpansion | trailingBackslash | rawQuoteConflict | rawControlChar | tripleQuoteEnd
-  | tripleCursorInside | loneQuoteInside
+  | tripleCursorInside | loneQuoteInside | tildeCursorInside
   deriving DecidableEq, Repr
 
 /-- line boundaries of `str.splitlines` that `_CONTROL_CHAR_ESCAPE` does not escape (FIXED list: it
@@ -459,7 +459,9 @@ def classify (T : Tables) (E : Env) (name o : Str) (typedEmpty : Bool) (m : Mode
     when (expandVars T E v == v && expandPath T E v != v) .tildeExpansion ++
     when (end_.length == 3 && !isDir && s.getLast? == some q) .tripleQuoteEnd) ++
   when (m == .closedInside && !loneQuote o typedEmpty m && (stripStringPrefix o).length == 3) .tripleCursorInside ++
-  when (m == .closedInside && loneQuote o typedEmpty m) .loneQuoteInside
+  when (m == .closedInside && loneQuote o typedEmpty m) .loneQuoteInside ++
+  -- the r'~' entry of the `~` special case always brings its own closing quote
+  when (m == .closedInside && !loneQuote o typedEmpty m && tildeSpecial name start0 && !o.isEmpty) .tildeCursorInside
 
 -- ---------------------------------------------------------------------------- the analyser clause
 /-- what a CommandContext of CompletionContextParser.parse says about the text around the cursor -/
